@@ -107,6 +107,86 @@ def build_chained(w):
                  'implies(not ISGLOB(objtype) and is_none(%s), result == (%s if not is_none(%s) else default))' % (G('_top_schema'), G('_base_schema'), G('_base_schema'))],
         raises={'InvalidReferenceError': {}}, hints={'ext_funcs': XL})
 
+def build_index(w):
+    """R8  the owner-side indexes of referenced objects (ObjectIndexBase: `pointers`, `annotations`, `constraints`, ... of an object; keys are CACHED).
+       KI(c, k, schema): the cached key of every member is the key function applied to the member as it is in `schema` (so a lookup by the member's current name finds it).
+         - ObjectIndexBase.create: the index it returns satisfies KI -- provided an index handed in as `data` (whose cached keys are reused) satisfies it already
+           (a precondition proved at call sites); two views of the same body: data an object collection / data a plain sequence of objects
+         - ObjectIndexBase.keys: fills in the cache consistently;  ObjectCollection.objects: the members, in order
+         - Object.refresh_classref (the hook a rename of an owned child calls): the collection stored back has its keys RECOMPUTED from the members' names in `schema`"""
+    OBJS = 'edb/schema/objects.py'
+    w.any('Key'); w.any('Uid')
+    w.refclass('Sch', {}); w.refclass('IObj', {'id': 'Opt[Uid]'}, universal=True)
+    w.refclass('KFn', {}); w.refclass('ICls', {'_key': 'KFn', 'type': 'Obj'}, universal=True)
+    w.refclass('Coll', {'_ids': 'Seq[Uid]', '_keys': 'Opt[Seq[Key]]'}, universal=True)
+    w.ufunc('OBJ', ['Sch', 'Uid'], 'IObj'); w.ufunc('KEY', ['KFn', 'Sch', 'IObj'], 'Key'); w.ufunc('CLSOF', ['Coll'], 'ICls')
+    w.trusted.append('object indexes: the key function of an index class is a function of (schema, object); schema.get_by_id is a function of (schema, id) and get_by_id(x.id) is x for a member x; '
+                     'super().create(schema, data, _keys=keys) builds an instance over the ids of data with the given keys (assumed block in ObjectIndexBase.create)')
+    w.ext_methods['KFn.__call__'] = dict(params={'schema': 'Sch', 'o': 'IObj'}, returns='Key', returns_expr='KEY(self, schema, o)')
+    w.ext_methods['Sch.get_by_id'] = dict(params={'id': 'Uid'}, returns='IObj', returns_expr='OBJ(self, id)')
+    w.define('KI(c, k, schema)', 'is_none(c._keys) or (len(some(c._keys)) == len(c._ids) and forall(0, len(c._ids), lambda j: some(c._keys)[j] == KEY(k, schema, OBJ(schema, c._ids[j]))))')
+    w.define('KIS(c, k, schema)', 'not is_none(c._keys) and len(some(c._keys)) == len(c._ids) and forall(0, len(c._ids), lambda j: some(c._keys)[j] == KEY(k, schema, OBJ(schema, c._ids[j])))')
+    XT = {'type': dict(params={'o': 'Coll'}, returns='ICls', returns_expr='CLSOF(o)')}
+    FRAME = 'forall(Coll, lambda o: implies(old(allocated(o)), o._ids == old(o._ids) and o._keys == old(o._keys)))'      # existing collections are immutable values: nothing that existed before is written
+    OBJS_ENS = ['len(result) == len(self._ids)', 'forall(0, len(result), lambda j: result[j] == OBJ(schema, self._ids[j]))']
+    w.contract(OBJS, 'ObjectCollection.objects', params={'self': 'Coll', 'schema': 'Sch'}, returns='Seq[IObj]', ensures=OBJS_ENS)
+    # calls through a collection VALUE (`data.objects(schema)`) are resolved by name to the contract verified just above (same clauses)
+    w.ext_methods['Coll.objects'] = dict(params={'schema': 'Sch'}, returns='Seq[IObj]', ensures=OBJS_ENS)
+    w.contract(OBJS, 'ObjectIndexBase.keys', params={'self': 'Coll', 'schema': 'Sch'}, returns='Seq[Key]', requires=['KI(self, CLSOF(self)._key, schema)'], modifies=['Coll._keys'],
+        ensures=['KIS(self, CLSOF(self)._key, schema)', 'result == some(self._keys)', 'self._ids == old(self._ids)', 'implies(not is_none(old(self._keys)), self._keys == old(self._keys))'],
+        hints={'ext_funcs': XT})
+    CREATE = dict(returns='Coll', modifies=['$alloc', 'Coll._ids', 'Coll._keys'], raises={'ObjectCollectionDuplicateNameError': {}, 'TypeError': {}},
+        ensures=['KIS(result, cls._key, schema)', 'not old(allocated(result))', FRAME])
+    ABS = lambda ids: {'coll = cast(ObjectIndexBase[Key_T, Object_T], super().create(schema, data, _keys=keys, **kwargs))':
+                       dict(assigns={'coll': 'Coll'}, modifies=['$alloc', 'Coll._ids', 'Coll._keys'], raises=['TypeError'],
+                            ensures=['not old(allocated(coll))', 'coll._keys == keys', 'coll._ids == %s' % ids,
+                                     'forall(Coll, lambda o: implies(old(allocated(o)), o._ids == old(o._ids) and o._keys == old(o._keys)))'])}
+    w.ext_methods['Coll._check_duplicates'] = dict(params={'schema': 'Sch'}, returns='none', raises={'ObjectCollectionDuplicateNameError': {}})
+    # view 1: data is an object collection (an index: cached keys reused -- needs KI of data; any other collection: keys computed from its members)
+    w.contract(OBJS, 'ObjectIndexBase.create', view='coll', params={'cls': 'ICls', 'schema': 'Sch', 'data': 'Coll'},
+        requires=['isinstance(data, ObjectCollection)', 'implies(isinstance(data, ObjectIndexBase), KIS(data, cls._key, schema))'],
+        abstract=ABS('data._ids'), hints={'kwargs_bag': {'kwargs': {}}, 'var_types': {'keys': 'Seq[Key]'}}, **CREATE)
+    # view 2: data is a plain sequence of objects (what refresh_classref hands over): keys are computed from the objects as they are in `schema`
+    ABS2 = {'coll = cast(ObjectIndexBase[Key_T, Object_T], super().create(schema, data, _keys=keys, **kwargs))':
+            dict(assigns={'coll': 'Coll'}, modifies=['$alloc', 'Coll._ids', 'Coll._keys'], raises=['TypeError'],
+                 ensures=['not old(allocated(coll))', 'coll._keys == keys', 'len(coll._ids) == len(data)', 'forall(0, len(data), lambda j: OBJ(schema, coll._ids[j]) == data[j])', FRAME])}
+    w.contract(OBJS, 'ObjectIndexBase.create', view='seq', params={'cls': 'ICls', 'schema': 'Sch', 'data': 'Seq[IObj]'},
+        abstract=ABS2, hints={'kwargs_bag': {'kwargs': {}}, 'var_types': {'keys': 'Seq[Key]'}}, **CREATE)
+    # Object.refresh_classref: what is stored back is an index whose keys were recomputed in `schema` (ghost g_new = the collection built)
+    w.refclass('SO', {}); w.refclass('RefD', {'attr': 'str'}); w.refclass('Fld', {'type': 'ICls'}); w.refclass('SCls', {})
+    w.ufunc('FIELDV', ['Sch', 'SO', 'str'], 'Opt[Coll]')
+    XR = {'type': dict(params={'o': 'SO'}, returns='SCls'),
+          'SCls.get_refdict': dict(params={'name': 'str'}, returns='RefD', raises={'LookupError': {}}),
+          'SCls.get_field': dict(params={'name': 'str'}, returns='Fld')}
+    w.ext_methods['SCls.get_refdict'] = XR['SCls.get_refdict']; w.ext_methods['SCls.get_field'] = XR['SCls.get_field']
+    w.ext_methods['SO.get_explicit_field_value'] = dict(params={'schema': 'Sch', 'name': 'str', 'default': 'none'}, returns='Opt[Coll]', returns_expr='FIELDV(schema, self, name)',
+                                                           ensures=['implies(not is_none(result), isinstance(some(result), ObjectCollection))'])
+    w.ext_methods['SO.set_field_value'] = dict(params={'schema': 'Sch', 'name': 'str', 'value': 'Coll'}, returns='Sch', ensures=['FIELDV(result, self, name) == value'])
+    # colltype.create(...) on a class VALUE: resolved by name to ObjectIndexBase.create, here with the clauses of the two verified views (argument kinds: sequence / collection)
+    CR_SEQ = dict(params={'schema': 'Sch', 'data': 'Seq[IObj]'}, returns='Coll', modifies=['$alloc', 'Coll._ids', 'Coll._keys'],
+                                        ensures=['KIS(result, self._key, schema)', 'not old(allocated(result))', 'len(result._ids) == len(data)',
+                                                 'forall(0, len(data), lambda j: OBJ(schema, result._ids[j]) == data[j])',
+                                                 'K_o._ids == old(K_o._ids) and K_o._keys == old(K_o._keys)'],      # FRAME, instantiated at the caller's collection (keeps the VC ground)
+                                        bind={'K_o': 'some(coll)'},
+                                        raises={'ObjectCollectionDuplicateNameError': {}, 'TypeError': {}})
+    CR_COLL = dict(params={'schema': 'Sch', 'data': 'Coll'}, returns='Coll', modifies=['$alloc', 'Coll._ids', 'Coll._keys'],
+                   requires=['isinstance(data, ObjectCollection)', 'implies(isinstance(data, ObjectIndexBase), KIS(data, self._key, schema))'],      # (view `coll` of the verified contract)
+                   ensures=['KIS(result, self._key, schema)', 'not old(allocated(result))', 'result._ids == old(data._ids)', 'K_o._ids == old(K_o._ids) and K_o._keys == old(K_o._keys)'],
+                   bind={'K_o': 'some(coll)'}, raises={'ObjectCollectionDuplicateNameError': {}, 'TypeError': {}})
+    w.ext_methods['ICls.create'] = dict(overloads=[CR_SEQ, CR_COLL], params={})
+    w.contract(OBJS, 'Object.refresh_classref', params={'self': 'SO', 'schema': 'Sch', 'collection': 'str'}, returns='Sch',
+        ghost={'g_new': 'Coll', 'g_k': 'KFn', 'g_attr': 'str'}, modifies=['$alloc', 'Coll._ids', 'Coll._keys'],
+        ensures=['implies(not is_none(FIELDV(schema, self, g_attr)), KIS(g_new, g_k, schema))',
+                 'implies(not is_none(FIELDV(schema, self, g_attr)), FIELDV(result, self, g_attr) == g_new)',
+                 'implies(not is_none(FIELDV(schema, self, g_attr)), len(g_new._ids) == len(some(FIELDV(schema, self, g_attr))._ids))',
+                 'implies(not is_none(FIELDV(schema, self, g_attr)), forall(0, len(g_new._ids), lambda j: OBJ(schema, g_new._ids[j]) == OBJ(schema, some(FIELDV(schema, self, g_attr))._ids[j])))',
+                 'implies(is_none(FIELDV(schema, self, g_attr)), result == schema)'],
+        raises={'LookupError': {}, 'ObjectCollectionDuplicateNameError': {}, 'TypeError': {}},
+        ghost_after={'all_coll = colltype.create(schema, coll.objects(schema))': [('g_new', 'all_coll')],
+                     'colltype = type(self).get_field(attr).type': [('g_k', 'colltype._key'), ('g_attr', 'attr')]},
+        hints={'ext_funcs': XR, 'ghost_out': ['g_new', 'g_k', 'g_attr']})
+    return w
+
 def build():
     w = World('C04')
     w.any('Id'); w.any('TName'); w.any('FName')      # field names are opaque (no string theory in the 4-place quantifiers); the literal 'name' is one fixed FName
@@ -316,6 +396,7 @@ def build():
         call_ghost={'FlatSchema._update_refs_to': {'olddata': 'values', 'newdata': 'None'}},
         hints=dict(var_types={'orig_refs': 'Map[FName,Set[Id]]', 'refs_to': 'Opt[%s]' % REFS}))
     build_chained(w)
+    build_index(w)
     return w
 
 def extra_obligations(w, tier, seed):
